@@ -49,6 +49,18 @@ type Nest struct {
 	// OutAlg: the final step's link reports its product under this digest algorithm name only
 	// (the parent's evidence, built from Summary(), keeps sha256: the two then have no algorithm in common)
 	OutAlg string
+	// SubName: another name for the step "sub" (names with characters of file-name patterns);
+	// SkipLink / LinkSigner / TamperLink keep using the key "sub"
+	SubName string
+	// TwinLayoutHook changes the twin's copy of the child layout before the second functionary signs it
+	TwinLayoutHook func(l *intoto.Layout)
+}
+
+func (n *Nest) subName() string {
+	if n.SubName != "" {
+		return n.SubName
+	}
+	return "sub"
 }
 
 func (n *Nest) outArtifacts(out map[string]string) map[string]intoto.HashObj {
@@ -93,9 +105,9 @@ func (n *Nest) Build() {
 	} else if subProducts == nil {
 		subProducts = [][]string{{"CREATE", "bin"}, {"DISALLOW", "*"}}
 	}
-	finalMat := [][]string{{"MATCH", "bin", "WITH", "PRODUCTS", "FROM", "sub"}, {"DISALLOW", "*"}}
+	finalMat := [][]string{{"MATCH", "bin", "WITH", "PRODUCTS", "FROM", n.subName()}, {"DISALLOW", "*"}}
 	if n.Child != nil {
-		finalMat = [][]string{{"MATCH", n.Child.OutName(), "WITH", "PRODUCTS", "FROM", "sub"}, {"DISALLOW", "*"}}
+		finalMat = [][]string{{"MATCH", n.Child.OutName(), "WITH", "PRODUCTS", "FROM", n.subName()}, {"DISALLOW", "*"}}
 	}
 	th := 1
 	subKeys := KeyIDs(n.Sub)
@@ -109,7 +121,7 @@ func (n *Nest) Build() {
 	}
 	n.Layout = NewLayout([]intoto.Step{
 		Step("prep", 1, KeyIDs(n.Prep), [][]string{{"ALLOW", "input"}, {"DISALLOW", "*"}}, [][]string{{"CREATE", "seed"}, {"ALLOW", "input"}, {"DISALLOW", "*"}}),
-		Step("sub", th, subKeys, subMaterials, subProducts),
+		Step(n.subName(), th, subKeys, subMaterials, subProducts),
 		Step("final", 1, KeyIDs(n.Final), finalMat, [][]string{{"CREATE", n.OutName()}, {"DISALLOW", "*"}}),
 	}, n.Inspect, keys)
 	if n.Expires != "" {
@@ -143,11 +155,15 @@ func (n *Nest) WriteLinks(dir string, dsse bool) (intoto.Metadata, error) {
 			return nil
 		}
 		signer := n.linkKey(step, def)
-		md, err := SignedMeta(NewLink(step, mats, prods), dsse, signer.Priv)
+		actual := step
+		if step == "sub" {
+			actual = n.subName()
+		}
+		md, err := SignedMeta(NewLink(actual, mats, prods), dsse, signer.Priv)
 		if err != nil {
 			return err
 		}
-		p := filepath.Join(dir, LinkName(step, def.Pub.KeyID))
+		p := filepath.Join(dir, LinkName(actual, def.Pub.KeyID))
 		if err := md.Dump(p); err != nil {
 			return err
 		}
@@ -168,13 +184,13 @@ func (n *Nest) WriteLinks(dir string, dsse bool) (intoto.Metadata, error) {
 			return nil, err
 		}
 	} else {
-		subDir := filepath.Join(dir, fmt.Sprintf(intoto.SublayoutLinkDirFormat, "sub", n.Sub.Pub.KeyID))
+		subDir := filepath.Join(dir, fmt.Sprintf(intoto.SublayoutLinkDirFormat, n.subName(), n.Sub.Pub.KeyID))
 		childMD, err := n.Child.WriteLinks(subDir, dsse)
 		if err != nil {
 			return nil, err
 		}
 		if !n.SkipLink["sub"] {
-			p := filepath.Join(dir, LinkName("sub", n.Sub.Pub.KeyID))
+			p := filepath.Join(dir, LinkName(n.subName(), n.Sub.Pub.KeyID))
 			if err := childMD.Dump(p); err != nil {
 				return nil, err
 			}
@@ -185,25 +201,33 @@ func (n *Nest) WriteLinks(dir string, dsse bool) (intoto.Metadata, error) {
 			}
 		}
 		if n.TwinSub {
-			dir2 := filepath.Join(dir, fmt.Sprintf(intoto.SublayoutLinkDirFormat, "sub", n.ExtraKey.Pub.KeyID))
+			dir2 := filepath.Join(dir, fmt.Sprintf(intoto.SublayoutLinkDirFormat, n.subName(), n.ExtraKey.Pub.KeyID))
 			savedSkip, savedSigner := n.Child.SkipLink, n.Child.Signer
 			n.Child.SkipLink, n.Child.Signer = n.TwinSkip, n.ExtraKey
+			savedLayout := n.Child.Layout
+			if n.TwinLayoutHook != nil {
+				b, _ := json.Marshal(n.Child.Layout)
+				var cp intoto.Layout
+				json.Unmarshal(b, &cp)
+				n.TwinLayoutHook(&cp)
+				n.Child.Layout = cp
+			}
 			twinMD, err := n.Child.WriteLinks(dir2, dsse)
-			n.Child.SkipLink, n.Child.Signer = savedSkip, savedSigner
+			n.Child.SkipLink, n.Child.Signer, n.Child.Layout = savedSkip, savedSigner, savedLayout
 			if err != nil {
 				return nil, err
 			}
-			if err := twinMD.Dump(filepath.Join(dir, LinkName("sub", n.ExtraKey.Pub.KeyID))); err != nil {
+			if err := twinMD.Dump(filepath.Join(dir, LinkName(n.subName(), n.ExtraKey.Pub.KeyID))); err != nil {
 				return nil, err
 			}
 		}
 		if n.ExtraPlain {
 			cm, cp := n.Child.Summary()
-			md, err := SignedMeta(NewLink("sub", cm, cp), dsse, n.ExtraKey.Priv)
+			md, err := SignedMeta(NewLink(n.subName(), cm, cp), dsse, n.ExtraKey.Priv)
 			if err != nil {
 				return nil, err
 			}
-			if err := md.Dump(filepath.Join(dir, LinkName("sub", n.ExtraKey.Pub.KeyID))); err != nil {
+			if err := md.Dump(filepath.Join(dir, LinkName(n.subName(), n.ExtraKey.Pub.KeyID))); err != nil {
 				return nil, err
 			}
 		}
